@@ -1455,7 +1455,7 @@ def find_argmax(pdb, ctx, loop):
             if e is not best:
                 am.idx_var, am.idx_val = e.target, e.value
         cur_def = _resolve(ctx, am.cur)
-        inits = _reaching_values(ctx, am.best, exclude=best.node)
+        inits = _reaching_values(ctx, am.best, exclude=best.node, at=c)
         am.magnitude_ok = is_abs_term(cur_def) and all(is_abs_term(_resolve(ctx, t)) or is_zero_term(_resolve(ctx, t)) for t in inits) and bool(inits)
         am.detail = "compare %s %s %s; best=%s gets %s; index=%s gets %s; candidates |.|: %s; initial value(s) of best: %s" % (
             show(L, ctx), op, show(R, ctx), show(am.best, ctx), show(bv, ctx),
@@ -1474,22 +1474,37 @@ def _same_value(ctx, a, b):
     return a == b or _resolve(ctx, a) == _resolve(ctx, b)
 
 
-def _reaching_values(ctx, var, exclude=None):
-    """Terms of all values a local may hold other than through the assignment node `exclude`."""
+def _reaching_values(ctx, var, exclude=None, at=None):
+    """Terms of the values a local may hold at node `at` (all its assignments if at is None) other than through
+    `exclude`.  An assignment reaches `at` if it is textually before it, or through the back edge of a loop
+    that contains both but not the variable's `let` (a `let` inside the loop re-declares the variable)."""
     out = []
     if var[0] != "var":
         return out
     b = ctx.binds.get(var[1])
     if b is not None and b.init is not None:
         out.append(ctx.term(b.init))
+    let_anc = set(id(x) for x in ancestors(b.node)) if b is not None and b.node is not None else set()
+    at_loops = [L for L in ancestors(at) if L.get("k") in ("For", "While", "Loop") and id(L) not in let_anc] if at is not None else []
     for a in ctx.assigns.get(var[1], []):
         if a is exclude:
             continue
+        if at is not None:
+            ap, tp = _npos(a), _npos(at)
+            if not ap < tp:
+                a_anc = set(id(x) for x in ancestors(a))
+                if not any(id(L) in a_anc for L in at_loops):
+                    continue
         if a.get("k") == "Assign" and strip(a["l"]).get("k") == "Local":
             out.append(ctx.term(a["r"]))
         else:
             out.append(("opaque", a.get("id")))
     return out
+
+
+def _npos(n):
+    sp = n.get("sp")
+    return (sp[0], sp[1]) if sp else (0, 0)
 
 
 def ordered_cmps_on_elements(pdb, fn):
